@@ -412,32 +412,34 @@ def cases(tier: str) -> List[Case]:
 
     # ---- balanced move ---------------------------------------------------------------------------------
     rl = "BalancedMoveRule"
+    # the other side of the equation: a lone variable, a sum, a product with a sum inside (the move must not depend on it)
+    for R in (("var", "w"), ("add", ("var", "v"), ("lit", 6)), ("mul", ("lit", 4), ("add", ("var", "v"), ("lit", 1)))):
+        for t in (ATOM_K, ATOM_X, TERM_KX, TERM_XN, NEG_Y):
+            tt = rename(t, "t.")
+            for rest in (ATOM_Y, ("mul", ("lit", 3), ("var", "z"))):
+                # t as right addend, left addend, nested addend; on the left and on the right side
+                forms = [(("add", A(rest), tt), (1, 2), (1, 1)), (("add", tt, A(rest)), (1, 1), (1, 2)),
+                         (("add", ("add", A(rest), tt), ("var", "v")), (1, 1, 2), None)]
+                for side_sk, tpath, keep in forms:
+                    sk = ("eq", side_sk, R)
+                    if keep is not None:
+                        pat = ("node", "eq", O(*keep), ("node", "sub", O(2), O(*tpath)))
+                    else:
+                        pat = ("node", "eq", ("node", "add", O(1, 1, 1), O(1, 2)), ("node", "sub", O(2), O(*tpath)))
+                    out.append(Case(rl, f"... + t + ... = R  (t = {sk_str(tt)})", sk, tpath, ("ok_root", pat), ["root"]))
+                    # mirrored: R = side
+                    mp = tuple([2] + list(tpath[1:]))
+                    sk2 = ("eq", R, side_sk)
+                    if keep is not None:
+                        pat2 = ("node", "eq", ("node", "sub", O(1), O(*mp)), O(*([2] + list(keep[1:]))))
+                    else:
+                        pat2 = ("node", "eq", ("node", "sub", O(1), O(*mp)), ("node", "add", O(2, 1, 1), O(2, 2)))
+                    out.append(Case(rl, f"R = ... + t + ...  (t = {sk_str(tt)})", sk2, mp, ("ok_root", pat2), ["root"]))
+        for a in (ATOM_X, GROUP_MUL, TERM_XN):
+            sk = ("eq", ("mul", ("const", "t.k"), A(a)), R)
+            pat = ("node", "eq", ("node", "div", O(1), O(1, 1)), ("node", "div", O(2), O(1, 1)))
+            out.append(Case(rl, "k*a = R (k != 0)", sk, (1, 1), ("ok_root_if", lambda p: p["t.k"] != 0, pat), ["root"]))
     R = ("var", "w")
-    for t in (ATOM_K, ATOM_X, TERM_KX, TERM_XN, NEG_Y):
-        tt = rename(t, "t.")
-        for rest in (ATOM_Y, ("mul", ("lit", 3), ("var", "z"))):
-            # t as right addend, left addend, nested addend; on the left and on the right side
-            forms = [(("add", A(rest), tt), (1, 2), (1, 1)), (("add", tt, A(rest)), (1, 1), (1, 2)),
-                     (("add", ("add", A(rest), tt), ("var", "v")), (1, 1, 2), None)]
-            for side_sk, tpath, keep in forms:
-                sk = ("eq", side_sk, R)
-                if keep is not None:
-                    pat = ("node", "eq", O(*keep), ("node", "sub", O(2), O(*tpath)))
-                else:
-                    pat = ("node", "eq", ("node", "add", O(1, 1, 1), O(1, 2)), ("node", "sub", O(2), O(*tpath)))
-                out.append(Case(rl, f"... + t + ... = R  (t = {sk_str(tt)})", sk, tpath, ("ok_root", pat), ["root"]))
-                # mirrored: R = side
-                mp = tuple([2] + list(tpath[1:]))
-                sk2 = ("eq", R, side_sk)
-                if keep is not None:
-                    pat2 = ("node", "eq", ("node", "sub", O(1), O(*mp)), O(*([2] + list(keep[1:]))))
-                else:
-                    pat2 = ("node", "eq", ("node", "sub", O(1), O(*mp)), ("node", "add", O(2, 1, 1), O(2, 2)))
-                out.append(Case(rl, f"R = ... + t + ...  (t = {sk_str(tt)})", sk2, mp, ("ok_root", pat2), ["root"]))
-    for a in (ATOM_X, GROUP_MUL, TERM_XN):
-        sk = ("eq", ("mul", ("const", "t.k"), A(a)), R)
-        pat = ("node", "eq", ("node", "div", O(1), O(1, 1)), ("node", "div", O(2), O(1, 1)))
-        out.append(Case(rl, "k*a = R (k != 0)", sk, (1, 1), ("ok_root_if", lambda p: p["t.k"] != 0, pat), ["root"]))
     out.append(Case(rl, "no equation", ("add", ("var", "x"), ("const", "t.k")), (2,), ("na",), ["root", "add.l", "mul.r"]))
     out.append(Case(rl, "addend under a product", ("eq", ("mul", ("lit", 2), ("add", ("var", "x"), ("const", "t.k"))), R), (1, 2, 2), ("na",), ["root"]))
     out.append(Case(rl, "coefficient with additions on its side", ("eq", ("add", ("mul", ("const", "t.k"), ("var", "x")), ("var", "y")), R), (1, 1, 1),
